@@ -516,4 +516,46 @@ CLAUSES += [
                 "projective_coords in every chart, Segment._compute_aux_data, in-place utils.normalize incl. null rows, the (x.T*f.T).T idiom) "
                 "vs the numpy code on exact rational inputs of outer rank 0-3 (rank-0: the atleast_1d branch)"),
 ]
+# ------------------------------------------------------------------ iteration over a composite object (model: iterItems)
+def gen_iter(rng, n):
+    for _ in range(n):
+        unit = rng.choice(["point", "pair"])
+        o = _rs(rng, 3, 1)                      # composite shape of rank 1-3 (iteration needs a sized object)
+        d = rng.choice([2, 3, 4])
+        s = o + ([d] if unit == "point" else [2, d])
+        yield {"unit": unit, "a": N.enc(N.small(rng, s))}
+
+
+def run_iter(inp):
+    a = _np(inp["a"])
+    obj = P.Point(a) if inp["unit"] == "point" else P.PointPair(a)
+    items = [np.asarray(u.proj_data) for u in obj]           # python's __getitem__/__len__ iteration protocol
+    return {"len": len(obj), "items": [N.enc(x) for x in items]}
+
+
+def lean_iter(inp, obs):
+    return [{"op": "c04.iter_items", "a": inp["a"]}]
+
+
+def judge_iter(inp, obs, lr):
+    tags0 = {"op": "iter", "unit": inp["unit"]}
+    res = lr[0]
+    if "exc" in obs:
+        return {"expected": {"model": res}, "observed": obs, "tags": dict(tags0, impl_raises=obs["exc"])}
+    if "err" in res:
+        return {"expected": {"model_err": res["err"]}, "observed": obs["len"], "tags": dict(tags0, model_err=res["err"][:40])}
+    m = res["ok"]
+    if len(m) != len(obs["items"]) or len(m) != obs["len"]:
+        return {"expected": {"model_items": len(m)}, "observed": {"items": len(obs["items"]), "len": obs["len"]}, "tags": dict(tags0, count=True)}
+    for k, (x, y) in enumerate(zip(m, obs["items"])):
+        if x["shape"] != y["shape"] or [F(t) for t in x["data"]] != [F(t) for t in y["data"]]:
+            return {"expected": {"model_item": x}, "observed": y, "tags": dict(tags0, item=k)}
+    return None
+
+
+CLAUSES += [
+    Clause("iter_corr", "corr", gen_iter, run_iter, judge_iter, lean=lean_iter, site="projective.ProjectiveObject.__getitem__/__len__ (iteration)",
+           budget={"quick": 60, "thorough": 600},
+           what="`for u in obj` over composite Point / PointPair objects of composite rank 1-3 vs Lean iterItems: number of items and every item's data, in order"),
+]
 CLAUSES += O.c04_oracles()
